@@ -1,188 +1,153 @@
-import InTotoModel.Model.Wire
+import InTotoModel.Lemmas.Codec
 /-
   C16 — Layout, link and signed-block metadata survive a wire round trip unchanged.
 
-  Proved here (for all values): the hand-written codecs — artifact rules (every rule form, optional
-  prefixes, arbitrary strings including the keywords themselves), commands, and byproducts (with the
-  flattened extra-field map) — decode what they encode, and the rule reader is injective on what it
-  accepts (it never maps two different token lists to the same rule, i.e. never silently alters a
-  keyword or prefix).  The derived struct codecs (Layout, Step, Inspection, Link, Signature,
-  Metablock, PublicKey) and chrono's date handling are covered by the harness oracle: value-level
-  round trip and byte-identical re-serialisation in compact and pretty form.
+  Model: `Model/Wire.lean` (the hand-written codecs: artifact rules, commands, byproducts) and
+  `Model/Codec.lean` (the serde derives of `Link`, `Step`, `Inspection`, `Layout` with
+  `Layout::try_into`, `Signature`, `Metablock` with the untagged `MetadataWrapper`, and the field
+  types `VirtualTargetPath`, `TargetDescription`, `KeyId`, `u32`).  Both directions are run against
+  the real (de)serialisers on valid and mutated documents by the harness (`doc_dec`, `rule_dec`,
+  `bp_dec`), together with the value-level round trip and byte-identical re-serialisation oracle.
+
+  Theorems, for all values:
+  * round trip - decoding the encoding of every representable link, step, inspection, layout,
+    signature and signed block returns it (`c16_*_round_trip`); "representable" is spelled out per
+    type (`LinkW.WF`, `StepW.WF`, `LayoutGood`, ...: what the Rust types enforce by construction);
+  * the readers never alter what they accept (`c16_*_faithful`): the members a reader consumed are,
+    verbatim, the encoding of the fields it returns - rule keyword and prefixes, threshold, digests
+    (lower-case hex only), key ids, command arguments, environment entries;
+  * a parsed layout's key table only holds entries filed under the key's own id.
+  Parameters (not modelled, `DocEnv`): reading/writing one public key and its intrinsic id (C12),
+  chrono's RFC 3339 reader/writer.  Known findings (see known_findings.json): a byproducts
+  extra-field map that reuses a reserved member name, an expiry after year 9999.
 -/
-set_option linter.unusedSimpArgs false
-
 namespace InToto.Wire
-open InToto InToto.Rules
-
-theorem strsOfJson_map_str (l : List Str) : strsOfJson (l.map JV.str) = some l := by
-  induction l with
-  | nil => rfl
-  | cons x xs ih => simp [strsOfJson, ih]
-
-theorem parseRuleTokens_ruleTokens (r : Rule) : parseRuleTokens (ruleTokens r) = some r := by
-  cases r with
-  | matchR p s w d f =>
-    cases s <;> cases w <;> cases d <;>
-      simp [ruleTokens, parseRuleTokens, parseAfterWith, parseWith]
-  | _ => simp [ruleTokens, parseRuleTokens]
+open InToto InToto.Rules InToto.KeyId
 
 /-- Every rule form survives the wire: decoding the encoding returns the rule. -/
-theorem c16_rule_round_trip (r : Rule) : ruleOfJson (ruleToJson r) = some r := by
-  simp [ruleOfJson, ruleToJson, strsOfJson_map_str, parseRuleTokens_ruleTokens]
+theorem c16_rule_round_trip (r : Rule) : ruleOfJson (ruleToJson r) = some r := rule_round_trip r
 
 /-- Commands survive the wire. -/
-theorem c16_command_round_trip (c : List Str) : commandOfJson (commandToJson c) = some c := by
-  simp [commandOfJson, commandToJson, strsOfJson_map_str]
+theorem c16_command_round_trip (c : List Str) : commandOfJson (commandToJson c) = some c := command_round_trip c
 
-def withTok : ArtKind → Str
-  | .materials => ['M', 'A', 'T', 'E', 'R', 'I', 'A', 'L', 'S']
-  | .products => ['P', 'R', 'O', 'D', 'U', 'C', 'T', 'S']
-
-theorem parseWith_spec {t : Str} {w : ArtKind} (h : parseWith t = some w) : t = withTok w := by
-  unfold parseWith at h
-  split at h
-  · cases h; assumption
-  · split at h
-    · cases h; assumption
-    · cases h
-
-theorem parseAfterWith_spec {p : Str} {s : Option Str} {toks : List Str} {r : Rule}
-    (h : parseAfterWith p s toks = some r) :
-    ∃ w d f, r = .matchR p s w d f ∧
-      toks = withTok w :: ((match d with | some x => [['I', 'N'], x] | none => []) ++ [['F', 'R', 'O', 'M'], f]) := by
-  unfold parseAfterWith at h
-  split at h
-  · rename_i target rest
-    split at h
-    · cases h
-    · rename_i w hw
-      have ht := parseWith_spec hw
-      split at h
-      · rename_i t1 dst t2 step
-        split at h
-        · rename_i hc
-          cases h
-          exact ⟨w, some dst, step, rfl, by rw [ht, hc.1, hc.2]; rfl⟩
-        · cases h
-      · rename_i t1 step
-        split at h
-        · rename_i hc
-          cases h
-          exact ⟨w, none, step, rfl, by rw [ht, hc]; rfl⟩
-        · cases h
-      · cases h
-  · cases h
-
-/-- The reader never alters what it accepts: an accepted token list is exactly the encoding of the
-    rule it is read as (keyword, pattern, prefixes, step all preserved, nothing dropped). -/
+/-- The rule reader never alters what it accepts: an accepted token list is exactly the encoding of
+    the rule it returns. -/
 theorem c16_rule_reader_faithful (toks : List Str) (r : Rule) (h : parseRuleTokens toks = some r) :
-    ruleTokens r = toks := by
-  unfold parseRuleTokens at h
-  split at h
-  · rename_i typ p rest
-    repeat' split at h
-    all_goals (try (cases h))
-    all_goals (try (subst_vars; simp [ruleTokens]))
-    all_goals (
-      obtain ⟨w, d, f, hr, ht⟩ := parseAfterWith_spec h
-      subst hr
-      subst_vars
-      cases w <;> cases d <;> simp [ruleTokens, withTok])
-  · cases h
+    ruleTokens r = toks := rule_reader_faithful toks r h
 
 /-- Consequently two different accepted token lists are never read as the same rule. -/
 theorem c16_rule_reader_injective (t1 t2 : List Str) (r : Rule)
-    (h1 : parseRuleTokens t1 = some r) (h2 : parseRuleTokens t2 = some r) : t1 = t2 := by
-  rw [← c16_rule_reader_faithful t1 r h1, ← c16_rule_reader_faithful t2 r h2]
-
-theorem getField_other {k : Str} {other : List (Str × Str)} (h : ∀ p ∈ other, p.1 ≠ k) :
-    getField k (other.map fun p => (p.1, JV.str p.2)) = none := by
-  induction other with
-  | nil => rfl
-  | cons p r ih =>
-    have hk : p.1 ≠ k := h p (by simp)
-    simp only [List.map_cons, getField, hk, if_false]
-    exact ih (fun q hq => h q (by simp [hq]))
-
-theorem flattenRest_other {other : List (Str × Str)}
-    (h : ∀ p ∈ other, p.1 ≠ kReturn ∧ p.1 ≠ kStderr ∧ p.1 ≠ kStdout) :
-    flattenRest (other.map fun p => (p.1, JV.str p.2)) = some other := by
-  induction other with
-  | nil => rfl
-  | cons p r ih =>
-    have ⟨h1, h2, h3⟩ := h p (by simp)
-    simp only [List.map_cons, flattenRest, h1, h2, h3, or_self, if_false]
-    rw [ih (fun q hq => h q (by simp [hq]))]
-    rfl
-
-theorem flattenRest_skip {pre rest : List (Str × JV)}
-    (h : ∀ p ∈ pre, p.1 = kReturn ∨ p.1 = kStderr ∨ p.1 = kStdout) :
-    flattenRest (pre ++ rest) = flattenRest rest := by
-  induction pre with
-  | nil => rfl
-  | cons p r ih =>
-    obtain ⟨k, v⟩ := p
-    have := h (k, v) (by simp)
-    simp only at this
-    simp only [List.cons_append, flattenRest, this, if_true]
-    exact ih (fun q hq => h q (by simp [hq]))
+    (h1 : parseRuleTokens t1 = some r) (h2 : parseRuleTokens t2 = some r) : t1 = t2 :=
+  rule_reader_injective t1 t2 r h1 h2
 
 /-- Byproducts (return value, output streams and any extra fields) survive the wire. -/
 theorem c16_byproducts_round_trip (b : ByProducts) (hwf : b.WF) :
-    byProductsOfJson (byProductsToJson b) = some b := by
-  obtain ⟨hother, hrv⟩ := hwf
-  obtain ⟨rv, se, so, other⟩ := b
-  simp only at hother hrv
-  have hne1 : kReturn ≠ kStderr := by decide
-  have hne2 : kReturn ≠ kStdout := by decide
-  have hne3 : kStderr ≠ kStdout := by decide
-  have ho1 : ∀ p ∈ other, p.1 ≠ kReturn := fun p hp => (hother p hp).1
-  have ho2 : ∀ p ∈ other, p.1 ≠ kStderr := fun p hp => (hother p hp).2.1
-  have ho3 : ∀ p ∈ other, p.1 ≠ kStdout := fun p hp => (hother p hp).2.2
-  simp only [byProductsToJson, byProductsOfJson]
-  have hfl : flattenRest (optField kReturn (fun i => JV.num (.int i)) rv ++ optField kStderr JV.str se
-      ++ optField kStdout JV.str so ++ other.map (fun p => (p.1, JV.str p.2))) = some other := by
-    rw [flattenRest_skip, flattenRest_other hother]
-    intro p hp
-    simp only [List.mem_append] at hp
-    rcases hp with (hp | hp) | hp
-    · cases rv <;> simp [optField] at hp; exact Or.inl (by rw [hp])
-    · cases se <;> simp [optField] at hp; exact Or.inr (Or.inl (by rw [hp]))
-    · cases so <;> simp [optField] at hp; exact Or.inr (Or.inr (by rw [hp]))
-  rw [hfl]
-  cases rv with
-  | none =>
-    cases se with
-    | none =>
-      cases so with
-      | none => simp [optField, optDecode, getField_other ho1, getField_other ho2, getField_other ho3]
-      | some so =>
-        simp [optField, optDecode, getField, getField_other ho1, getField_other ho2, decStr, hne2.symm, hne3.symm, hne2, hne3]
-    | some se =>
-      cases so with
-      | none => simp [optField, optDecode, getField, getField_other ho1, getField_other ho3, decStr, hne1.symm, hne1, hne3]
-      | some so => simp [optField, optDecode, getField, getField_other ho1, decStr, hne1.symm, hne1, hne3, hne3.symm, hne2.symm]
-  | some rv =>
-    have hin : inI32 rv = true := hrv rv rfl
-    cases se with
-    | none =>
-      cases so with
-      | none => simp [optField, optDecode, getField, getField_other ho2, getField_other ho3, decI32, hin, hne1, hne2]
-      | some so => simp [optField, optDecode, getField, getField_other ho2, decI32, decStr, hin, hne1, hne2, hne3.symm, hne2.symm]
-    | some se =>
-      cases so with
-      | none => simp [optField, optDecode, getField, getField_other ho3, decI32, decStr, hin, hne1, hne2, hne1.symm, hne3]
-      | some so => simp [optField, optDecode, getField, decI32, decStr, hin, hne1, hne2, hne1.symm, hne3, hne3.symm, hne2.symm]
+    byProductsOfJson (byProductsToJson b) = some b := byproducts_round_trip b hwf
 
-/- Non-vacuity: a byproducts value with every field and an extra entry is well formed; a MATCH rule whose
-   prefixes are themselves keywords still round-trips. -/
-example : (⟨some 0, some [], some ['o', 'k'], [(['x'], ['y'])]⟩ : ByProducts).WF := by
-  constructor
-  · intro p hp; simp at hp; subst hp; decide
-  · intro i hi; cases hi; decide
-example : ruleOfJson (ruleToJson (.matchR ['I', 'N'] (some ['W', 'I', 'T', 'H']) .products (some ['F', 'R', 'O', 'M']) ['I', 'N']))
-    = some (.matchR ['I', 'N'] (some ['W', 'I', 'T', 'H']) .products (some ['F', 'R', 'O', 'M']) ['I', 'N']) :=
-  c16_rule_round_trip _
+/-- A link survives the wire. -/
+theorem c16_link_round_trip (l : LinkW) (h : l.WF) : linkOfJson (linkToJson l) = some l := link_round_trip l h
+
+/-- The link reader never alters what it accepts. -/
+theorem c16_link_reader_faithful {kvs : List (Str × JV)} {l : LinkW} (h : linkOfJson (.obj kvs) = some l) :
+    getField kName kvs = some (.str l.name) ∧
+    getField kMaterials kvs = some (artsToJson l.materials) ∧
+    getField kProducts kvs = some (artsToJson l.products) ∧
+    getField kCommand kvs = some (commandToJson l.command) ∧
+    (∀ m, l.env = some m → getField kEnvironment kvs = some (strMapToJson m)) ∧
+    (l.env = none → getField kEnvironment kvs = none ∨ getField kEnvironment kvs = some .null) :=
+  link_faithful h
+
+/-- Digests are read exactly as written: only `sha256` / `sha512`, lower-case hex. -/
+theorem c16_digest_reader_faithful {v : JV} {d : Digest} (h : digestOfJson v = some d) : digestToJson d = v :=
+  (digest_faithful h).1
+
+/-- A step survives the wire; its reader never alters what it accepts (type tag, name, threshold,
+    rules, key ids, command). -/
+theorem c16_step_round_trip (s : StepW) (h : s.WF) : stepOfJson (stepToJson s) = some s := step_round_trip s h
+
+theorem c16_step_reader_faithful {kvs : List (Str × JV)} {s : StepW} (h : stepOfJson (.obj kvs) = some s) :
+    getField kType kvs = some (.str s.typ) ∧
+    getField kName kvs = some (.str s.name) ∧
+    getField kThreshold kvs = some (.num (.int s.threshold)) ∧
+    getField kExpMaterials kvs = some (rulesToJson s.expMaterials) ∧
+    getField kExpProducts kvs = some (rulesToJson s.expProducts) ∧
+    getField kPubkeys kvs = some (keyIdsToJson s.pubkeys) ∧
+    getField kExpCommand kvs = some (commandToJson s.expCommand) := step_faithful h
+
+/-- An inspection survives the wire; its reader never alters what it accepts. -/
+theorem c16_inspection_round_trip (i : InspW) : inspOfJson (inspToJson i) = some i := insp_round_trip i
+
+theorem c16_inspection_reader_faithful {kvs : List (Str × JV)} {i : InspW} (h : inspOfJson (.obj kvs) = some i) :
+    getField kType kvs = some (.str i.typ) ∧
+    getField kName kvs = some (.str i.name) ∧
+    getField kExpMaterials kvs = some (rulesToJson i.expMaterials) ∧
+    getField kExpProducts kvs = some (rulesToJson i.expProducts) ∧
+    getField kRun kvs = some (commandToJson i.run) := insp_faithful h
+
+/-- A signature entry survives the wire; its reader never alters what it accepts. -/
+theorem c16_signature_round_trip (s : SigW) (h : keyIdOk s.keyid = true) : sigOfJson (sigToJson s) = some s :=
+  sig_round_trip s h
+
+theorem c16_signature_reader_faithful {kvs : List (Str × JV)} {s : SigW} (h : sigOfJson (.obj kvs) = some s) :
+    getField kKeyid kvs = some (.str s.keyid) ∧ getField kSig kvs = some (.str (hexEncode s.sig)) :=
+  sig_faithful h
+
+variable {K : Type}
+
+/-- A layout survives the wire (given that its keys and its expiry do, `LayoutGood`). -/
+theorem c16_layout_round_trip (E : DocEnv K) (L : LayoutW K) (h : LayoutGood E L) :
+    layoutOfJson E (layoutToJson E L) = some L := layout_round_trip E L h
+
+/-- The layout reader: readme, steps and inspections are what the document says, the expiry is the
+    instant the document's text denotes (to the second), and every entry of the parsed key table is
+    filed under its key's own id. -/
+theorem c16_layout_reader_faithful (E : DocEnv K) {kvs : List (Str × JV)} {L : LayoutW K}
+    (h : layoutOfJson E (.obj kvs) = some L) :
+    getField kReadme kvs = some (.str L.readme) ∧
+    (∃ t i, getField kExpires kvs = some (.str t) ∧ E.parseTime t = some i ∧ L.expires = truncSec i) ∧
+    (∃ xs, getField kSteps kvs = some (.arr xs) ∧ allOpt stepOfJson xs = some L.steps) ∧
+    (∃ xs, getField kInspect kvs = some (.arr xs) ∧ allOpt inspOfJson xs = some L.inspect) ∧
+    (∀ p ∈ L.keys, E.kidOf p.2 = p.1) := layout_faithful E h
+
+/-- A signed block (signatures + layout or link, through the untagged reader) survives the wire; in
+    particular a written link is never read back as a layout. -/
+theorem c16_block_round_trip (E : DocEnv K) (b : BlockW K) (hs : ∀ s ∈ b.signatures, keyIdOk s.keyid = true)
+    (hm : MetaGood E b.signed) : blockOfJson E (blockToJson E b) = some b := block_round_trip E b hs hm
+
+theorem c16_link_is_not_read_as_layout (E : DocEnv K) (l : LinkW) : layoutOfJson E (linkToJson l) = none :=
+  layoutOfJson_link E l
+
+/- Non-vacuity: a concrete link, step and signature meet the representability conditions and do
+   round-trip (evaluated by the kernel). -/
+def exLink : LinkW :=
+  { name := "build".toList, materials := [("src/a.c".toList, [("sha256".toList, [0xab, 0x01])])],
+    products := [("a.out".toList, [("sha256".toList, [0x00, 0xff]), ("sha512".toList, [1, 2, 3])])],
+    env := some [("PATH".toList, "/bin".toList)],
+    byproducts := { returnValue := some 0, stderr := some [], stdout := some "ok\n".toList, other := [("x".toList, "y".toList)] },
+    command := ["cc".toList, "a.c".toList] }
+
+theorem exLink_WF : exLink.WF := by
+  refine ⟨?_, ?_, ?_, ?_⟩
+  · intro p hp d hd
+    simp only [exLink, List.mem_singleton] at hp
+    subst hp
+    simp only [List.mem_singleton] at hd
+    subst hd
+    decide
+  · intro p hp d hd
+    simp only [exLink, List.mem_singleton] at hp
+    subst hp
+    simp only [List.mem_cons, List.mem_nil_iff, or_false] at hd
+    rcases hd with rfl | rfl <;> decide
+  · intro p hp
+    simp only [exLink, List.mem_singleton] at hp
+    subst hp
+    decide
+  · intro i hi
+    simp only [exLink, Option.some.injEq] at hi
+    subst hi
+    decide
+
+example : linkOfJson (linkToJson exLink) = some exLink := c16_link_round_trip exLink exLink_WF
 
 end InToto.Wire
